@@ -87,7 +87,7 @@ func runE2E(bin, tmp, fakeDir, repoSum string, seed int64, count int, pkgs map[s
 		analyzer.VerifResetGlobals()
 		for _, pn := range pkgNames {
 			p := pkgs[pn]
-			diags, errStr, panicStr := runPass(p)
+			diags, _, errStr, panicStr := runPass(p)
 			if errStr != "" || panicStr != "" {
 				res.Err = "in-process: " + errStr + panicStr
 			}
